@@ -1,4 +1,4 @@
-import PbVerif.Lemmas.Pad
+import PbVerif.Lemmas.Pad2dLin
 /-! C18 — padding and kernel helpers preserve the data and its length. -/
 namespace PbVerif.C18
 open PbVerif.Pad PbVerif.Lemmas
@@ -41,5 +41,158 @@ theorem optimizeWindow_ge_one (hit : Nat → Bool) (inc maxHits minHw maxHw : Na
 
 example : padEdges [3, 5, 7] 2 3 2 = [-1, 1, 3, 5, 7, 9, 11] := by decide +kernel
 example : paddedConvolveCore (List.replicate 9 4) [1/4, 1/4, 1/4, 1/4] 2 = [4, 4, 4, 4, 4] := by decide +kernel
+
+/-! ### 2-D: `utils.pad_edges2d(…, mode='extrapolate')` / `utils._extrapolate2d`
+
+`y` is an `M × N` matrix (`hM`, `hrect`), `M, N ≥ 1`; `pr`/`pc` are the pad lengths along the rows
+axis (top and bottom) / the columns axis (left and right), `wt wb wl wr` the four windows.  The real
+code refuses a pad length of 0 (`NotImplementedError`), hence `hpr`, `hpc`.
+`ent m i j = (m.getD i []).getD j 0`. -/
+
+/-- exactly `pr` extra rows above and below and `pc` extra entries left and right of every row -/
+theorem pad2d_shape (y : List (List Rat)) (M N pr pc wt wb wl wr : Nat) (hM : y.length = M)
+    (hrect : ∀ row ∈ y, row.length = N) (hM1 : 1 ≤ M) (hN1 : 1 ≤ N) (hpr : 1 ≤ pr) (hpc : 1 ≤ pc) :
+    (extrapolate2d y pr pc wt wb wl wr).length = M + 2 * pr ∧
+      ∀ row ∈ extrapolate2d y pr pc wt wb wl wr, row.length = N + 2 * pc :=
+  have _ := hpr; have _ := hpc
+  extrapolate2d_shape y M N pr pc wt wb wl wr hM hrect hM1 hN1
+
+/-- the central `M × N` block is the input, for all windows -/
+theorem pad2d_interior (y : List (List Rat)) (M N pr pc wt wb wl wr : Nat) (hM : y.length = M)
+    (hrect : ∀ row ∈ y, row.length = N) (hM1 : 1 ≤ M) (hN1 : 1 ≤ N) (hpr : 1 ≤ pr) (hpc : 1 ≤ pc)
+    (i j : Nat) (hi : i < M) (hj : j < N) :
+    ent (extrapolate2d y pr pc wt wb wl wr) (pr + i) (pc + j) = ent y i j :=
+  have _ := hpr; have _ := hpc
+  extrapolate2d_interior y M N pr pc wt wb wl wr hM hrect hM1 hN1 i j hi hj
+
+/-- the rows `pr … pr+M-1` of the result (left strip, interior, right strip) are the 1-D `padEdges` of the
+rows of the data, with the windows truncated to the row length as the 2-D code does … -/
+theorem pad2d_rows_are_1d (y : List (List Rat)) (M N pr pc wt wb wl wr : Nat) (hM : y.length = M)
+    (hrect : ∀ row ∈ y, row.length = N) (hM1 : 1 ≤ M) (hN1 : 1 ≤ N) (hpr : 1 ≤ pr) (hpc : 1 ≤ pc)
+    (i : Nat) (hi : i < M) :
+    (extrapolate2d y pr pc wt wb wl wr).getD (pr + i) [] = padEdges (y.getD i []) pc (min wl N) (min wr N) :=
+  have _ := hpr; have _ := hpc
+  extrapolate2d_row y M N pr pc wt wb wl wr hM hrect hM1 hN1 i hi
+
+/-- … and the columns `pc … pc+N-1` (top strip, interior, bottom strip) are the 1-D `padEdges` of the columns -/
+theorem pad2d_cols_are_1d (y : List (List Rat)) (M N pr pc wt wb wl wr : Nat) (hM : y.length = M)
+    (hrect : ∀ row ∈ y, row.length = N) (hM1 : 1 ≤ M) (hN1 : 1 ≤ N) (hpr : 1 ≤ pr) (hpc : 1 ≤ pc)
+    (j : Nat) (hj : j < N) :
+    colOf (extrapolate2d y pr pc wt wb wl wr) (pc + j) = padEdges (colOf y j) pr (min wt M) (min wb M) :=
+  have _ := hpr; have _ := hpc
+  extrapolate2d_col y M N pr pc wt wb wl wr hM hrect hM1 hN1 j hj
+
+/-- the truncation of the windows is invisible to the 1-D rule as soon as the axis has two points:
+`pad_edges(row, pc, 'extrapolate', (wl, wr))` itself -/
+theorem pad_min_window (ys : List Rat) (pad wl wr : Nat) (hn : 2 ≤ ys.length) :
+    padEdges ys pad (min wl ys.length) (min wr ys.length) = padEdges ys pad wl wr := padEdges_min_window ys pad wl wr hn
+
+/-- **exactly planar data are continued exactly** — the four strips AND the four corners — for every
+size ≥ 2, every pad length per axis and all windows ≥ 2 (also windows longer than the data) -/
+theorem extrap2d_planar_exact (a b c : Rat) (M N pr pc wt wb wl wr : Nat) (hM : 2 ≤ M) (hN : 2 ≤ N)
+    (hpr : 1 ≤ pr) (hpc : 1 ≤ pc) (hwt : 2 ≤ wt) (hwb : 2 ≤ wb) (hwl : 2 ≤ wl) (hwr : 2 ≤ wr) :
+    extrapolate2d ((List.range M).map fun (i : Nat) => (List.range N).map fun (j : Nat) => a + b * (i : Rat) + c * (j : Rat))
+        pr pc wt wb wl wr =
+      (List.range (M + 2 * pr)).map fun (k : Nat) => (List.range (N + 2 * pc)).map fun (l : Nat) =>
+        a + b * ((k : Rat) - (pr : Rat)) + c * ((l : Rat) - (pc : Rat)) :=
+  have _ := hpr; have _ := hpc
+  extrapolate2d_planar_exact a b c M N pr pc wt wb wl wr hM hN hwt hwb hwl hwr
+
+/-- planar data under EVERY combination of windows ≥ 1 and sizes ≥ 1 (global coordinates: the data sit at
+rows `pr …`, columns `pc …`): along an axis whose effective window `min w n` is a single point the nearest
+edge value is repeated (`clampIdx` = the edge position there, the identity elsewhere), along the other
+axis the plane is continued; the corners are the same expression in both coordinates:
+`planarClamped … [k][l] = a + b·clampIdx pr M wt wb k + c·clampIdx pc N wl wr l` -/
+theorem extrap2d_planar_clamped (a b c : Rat) (M N pr pc wt wb wl wr : Nat) (hM : 1 ≤ M) (hN : 1 ≤ N)
+    (hpr : 1 ≤ pr) (hpc : 1 ≤ pc) (hwt : 1 ≤ wt) (hwb : 1 ≤ wb) (hwl : 1 ≤ wl) (hwr : 1 ≤ wr) :
+    extrapolate2d ((List.range M).map fun i => (List.range N).map fun j =>
+        a + b * (((pr + i : Nat) : Int) : Rat) + c * (((pc + j : Nat) : Int) : Rat)) pr pc wt wb wl wr =
+      planarClamped a b c M N pr pc wt wb wl wr :=
+  have _ := hpr; have _ := hpc
+  extrapolate2d_planar_clamped a b c M N pr pc wt wb wl wr hM hN hwt hwb hwl hwr
+theorem clampIdx_id (pad n wl wr k : Nat) (hn : 2 ≤ n) (hwl : 2 ≤ wl) (hwr : 2 ≤ wr) : clampIdx pad n wl wr k = k :=
+  Lemmas.clampIdx_id pad n wl wr k hn hwl hwr
+theorem clampIdx_one (pad n wl wr k : Nat) (hn : 1 ≤ n) (hl : min wl n = 1) (hr : min wr n = 1) :
+    clampIdx pad n wl wr k = max pad (min k (pad + n - 1)) := Lemmas.clampIdx_one pad n wl wr k hn hl hr
+
+/-- window 1 (the case repaired by eac5f8d), ARBITRARY data: a side whose effective window is one point
+(window 1, or an axis of length 1) repeats the nearest edge row / column in its strip, whatever the other
+three windows are … -/
+theorem extrap2d_window_one_sides (y : List (List Rat)) (M N pr pc wt wb wl wr : Nat) (hM : y.length = M)
+    (hrect : ∀ row ∈ y, row.length = N) (hM1 : 1 ≤ M) (hN1 : 1 ≤ N) :
+    (min wt M = 1 → ∀ k j, k < pr → j < N → ent (extrapolate2d y pr pc wt wb wl wr) k (pc + j) = ent y 0 j) ∧
+    (min wb M = 1 → ∀ k j, k < pr → j < N →
+      ent (extrapolate2d y pr pc wt wb wl wr) (pr + M + k) (pc + j) = ent y (M - 1) j) ∧
+    (min wl N = 1 → ∀ i l, i < M → l < pc → ent (extrapolate2d y pr pc wt wb wl wr) (pr + i) l = ent y i 0) ∧
+    (min wr N = 1 → ∀ i l, i < M → l < pc →
+      ent (extrapolate2d y pr pc wt wb wl wr) (pr + i) (pc + N + l) = ent y i (N - 1)) :=
+  extrapolate2d_one_sides y M N pr pc wt wb wl wr hM hrect hM1 hN1
+
+/-- … and when all four are one point the whole result, corners included, is the data indexed at the
+nearest row and column (`np.pad(y, …, 'edge')`): every corner block is the corner value of the data -/
+theorem extrap2d_window_one (y : List (List Rat)) (M N pr pc wt wb wl wr : Nat) (hM : y.length = M)
+    (hrect : ∀ row ∈ y, row.length = N) (hM1 : 1 ≤ M) (hN1 : 1 ≤ N) (hpr : 1 ≤ pr) (hpc : 1 ≤ pc)
+    (ht : min wt M = 1) (hb : min wb M = 1) (hl : min wl N = 1) (hr : min wr N = 1) :
+    extrapolate2d y pr pc wt wb wl wr =
+      (List.range (M + 2 * pr)).map fun k => (List.range (N + 2 * pc)).map fun l =>
+        ent y (max pr (min k (pr + M - 1)) - pr) (max pc (min l (pc + N - 1)) - pc) :=
+  have _ := hpr; have _ := hpc
+  extrapolate2d_one y M N pr pc wt wb wl wr hM hrect hM1 hN1 ht hb hl hr
+
+/-- `pad_edges2d`'s arguments: `pad_length` a scalar `[p]` or a pair `[p, q]` (rows, columns), windows
+default (`none`), scalar, pair or four values — whenever `_get_row_col_values` resolves them to positive
+numbers the result is `_extrapolate2d` with the FIRST row value and the FIRST column value of the padding
+(`pb` and `pr` only have to be positive: a four-valued `pad_length` is accepted and its second and fourth
+entries are ignored, DESIGN/report) -/
+theorem pad2d_args_ok (y : List (List Rat)) (pad : List Int) (win : Option (List Int))
+    (pt pb pl pr wt wb wl wr : Nat) (hp : rowColValues pad = some ((pt : Int), (pb : Int), (pl : Int), (pr : Int)))
+    (hw : windows2d ((pt : Int), (pb : Int), (pl : Int), (pr : Int)) win =
+      some ((wt : Int), (wb : Int), (wl : Int), (wr : Int)))
+    (h1 : 1 ≤ pt) (h2 : 1 ≤ pb) (h3 : 1 ≤ pl) (h4 : 1 ≤ pr) (h5 : 1 ≤ wt) (h6 : 1 ≤ wb) (h7 : 1 ≤ wl) (h8 : 1 ≤ wr) :
+    padEdges2dExtrap y pad win = .ok (extrapolate2d y pt pl wt wb wl wr) :=
+  padEdges2dExtrap_ok y pad win pt pb pl pr wt wb wl wr hp hw h1 h2 h3 h4 h5 h6 h7 h8
+/-- scalar and pair-valued `pad_length` with the default windows: exactly `p` rows / `q` columns per side -/
+theorem pad2d_args_pair (y : List (List Rat)) (p q : Nat) (hp : 1 ≤ p) (hq : 1 ≤ q) :
+    padEdges2dExtrap y [(p : Int), (q : Int)] none = .ok (extrapolate2d y p q p p q q) ∧
+    padEdges2dExtrap y [(p : Int)] none = .ok (extrapolate2d y p p p p p p) :=
+  ⟨padEdges2dExtrap_ok y _ none p p q q p p q q rfl rfl hp hp hq hq hp hp hq hq,
+   padEdges2dExtrap_ok y _ none p p p p p p p p rfl rfl hp hp hp hp hp hp hp hp⟩
+/-- a pad length of 0 on any side is refused (`NotImplementedError`), before anything else is looked at -/
+theorem pad2d_args_zero (y : List (List Rat)) (pad : List Int) (win : Option (List Int))
+    (pt pb pl pr : Int) (hp : rowColValues pad = some (pt, pb, pl, pr)) (h0 : pt = 0 ∨ pb = 0 ∨ pl = 0 ∨ pr = 0) :
+    padEdges2dExtrap y pad win = .notImplemented := padEdges2dExtrap_zero y pad win pt pb pl pr hp h0
+
+example : extrapolate2d [[0, 1, 2], [10, 11, 12]] 1 2 2 2 2 3 =
+    [[-12, -11, -10, -9, -8, -7, -6], [-2, -1, 0, 1, 2, 3, 4], [8, 9, 10, 11, 12, 13, 14], [18, 19, 20, 21, 22, 23, 24]] := by
+  decide +kernel
+example : extrapolate2d [[1, 2], [3, 5]] 1 1 1 1 1 1 = [[1, 1, 2, 2], [1, 1, 2, 2], [3, 3, 5, 5], [3, 3, 5, 5]] := by decide +kernel
+example : extrapolate2d [[1, 2], [3, 5]] 1 1 2 2 2 2 = [[-1, -1, -1, -1], [0, 1, 2, 3], [1, 3, 5, 7], [2, 5, 8, 11]] := by decide +kernel
+/-- a single row: the column direction has one point, so it is repeated whatever `wt`, `wb` say -/
+example : extrapolate2d [[1, 2, 4]] 2 1 5 5 2 1 =
+    [[0, 1, 2, 4, 4], [0, 1, 2, 4, 4], [0, 1, 2, 4, 4], [0, 1, 2, 4, 4], [0, 1, 2, 4, 4]] := by decide +kernel
+example : clampIdx 2 3 1 4 0 = 2 ∧ clampIdx 2 3 1 4 6 = 6 ∧ clampIdx 2 1 7 7 4 = 2 := by decide
+example : padEdges2dExtrap [[1, 2], [3, 5]] [1, 0] none = .notImplemented := by decide +kernel
+example : padEdges2dExtrap [[1, 2], [3, 5]] [1, -1] none = .valueError := by decide +kernel
+example : padEdges2dExtrap [[1, 2], [3, 5]] [1, 2, 1, 9] (some [2]) =
+    .ok [[-1, -1, -1, -1], [0, 1, 2, 3], [1, 3, 5, 7], [2, 5, 8, 11]] := by decide +kernel
+
+/-- **the two corner estimates are the same number**: padding the rows and padding the columns commute
+(each is a multiplication by a fixed matrix, on the right and on the left), so the mean taken in the four
+corners by `_extrapolate2d` is the mean of a value with itself and the whole result is
+"pad the columns, then pad the rows" = "pad the rows, then pad the columns"; all data, sizes, windows -/
+theorem extrap2d_corner_orders_agree (y : List (List Rat)) (M N pr pc wt wb wl wr : Nat) (hM : y.length = M)
+    (hrect : ∀ row ∈ y, row.length = N) (hM1 : 1 ≤ M) (hN1 : 1 ≤ N) :
+    padCols (padRows y pc wl wr) pr wt wb = padRows (padCols y pr wt wb) pc wl wr ∧
+    extrapolate2d y pr pc wt wb wl wr = padRows (padCols y pr wt wb) pc wl wr :=
+  extrapolate2d_eq_orders y M N pr pc wt wb wl wr hM hrect hM1 hN1
+/-- so every row of the result, the top and bottom strips with the corners included, is the 1-D `padEdges`
+of the corresponding row of the column-padded data: a corner IS the 1-D extension of a strip -/
+theorem pad2d_all_rows_are_1d (y : List (List Rat)) (M N pr pc wt wb wl wr : Nat) (hM : y.length = M)
+    (hrect : ∀ row ∈ y, row.length = N) (hM1 : 1 ≤ M) (hN1 : 1 ≤ N) (k : Nat) (hk : k < M + 2 * pr) :
+    (extrapolate2d y pr pc wt wb wl wr).getD k [] =
+      padEdges ((padCols y pr wt wb).getD k []) pc (min wl N) (min wr N) :=
+  extrapolate2d_all_rows y M N pr pc wt wb wl wr hM hrect hM1 hN1 k hk
+example : padCols (padRows [[1, 2, 4], [0, 5, 3]] 2 3 2) 1 2 1 = padRows (padCols [[1, 2, 4], [0, 5, 3]] 1 2 1) 2 3 2 ∧
+    (extrapolate2d [[1, 2, 4], [0, 5, 3]] 1 2 2 1 3 2).getD 0 [] = [-5/2, -1, 2, -1, 5, 11, 17] := by decide +kernel
 
 end PbVerif.C18
